@@ -78,10 +78,13 @@ type tsState struct {
 	field map[*ssa.Alloc]EnumSet // abstract value of alloc.<Field>
 	val   map[ssa.Value]EnumSet  // abstract value of loaded SSA values
 	link  map[ssa.Value]*ssa.Alloc
+	// same[a] = b: record a is a whole copy of record b and neither's field was written since — a test of one
+	// refines the other (`next := current; switch current.Status { … next.Status = … }`)
+	same map[*ssa.Alloc]*ssa.Alloc
 }
 
 func newTsState() *tsState {
-	return &tsState{field: map[*ssa.Alloc]EnumSet{}, val: map[ssa.Value]EnumSet{}, link: map[ssa.Value]*ssa.Alloc{}}
+	return &tsState{field: map[*ssa.Alloc]EnumSet{}, val: map[ssa.Value]EnumSet{}, link: map[ssa.Value]*ssa.Alloc{}, same: map[*ssa.Alloc]*ssa.Alloc{}}
 }
 
 func (s *tsState) clone() *tsState {
@@ -94,6 +97,9 @@ func (s *tsState) clone() *tsState {
 	}
 	for k, v := range s.link {
 		n.link[k] = v
+	}
+	for k, v := range s.same {
+		n.same[k] = v
 	}
 	return n
 }
@@ -115,6 +121,12 @@ func (s *tsState) join(o *tsState) bool {
 	for k, a := range s.link {
 		if oa, ok := o.link[k]; !ok || oa != a {
 			delete(s.link, k)
+			changed = true
+		}
+	}
+	for k, a := range s.same {
+		if oa, ok := o.same[k]; !ok || oa != a {
+			delete(s.same, k)
 			changed = true
 		}
 	}
@@ -487,6 +499,13 @@ func (ts *Typestate) transfer(in ssa.Instruction, st *tsState) {
 					// whole-struct store: from another tracked local (load) or unknown
 					st.field[a] = ts.wholeVal(x.Val, st)
 					ts.unlink(st, a)
+					if u, ok := x.Val.(*ssa.UnOp); ok && u.Op == token.MUL {
+						if src, ok := u.X.(*ssa.Alloc); ok && src != a {
+							if _, tracked := st.field[src]; tracked {
+								st.same[a] = src
+							}
+						}
+					}
 				}
 			}
 		}
@@ -538,6 +557,12 @@ func (ts *Typestate) unlink(st *tsState, a *ssa.Alloc) {
 			delete(st.link, v)
 		}
 	}
+	delete(st.same, a)
+	for k, b := range st.same {
+		if b == a {
+			delete(st.same, k)
+		}
+	}
 }
 
 func (ts *Typestate) refine(cond ssa.Value, taken bool, st *tsState) {
@@ -576,10 +601,22 @@ func (ts *Typestate) refine(cond ssa.Value, taken bool, st *tsState) {
 		}
 		st.val[v] = ns
 		if a, ok := st.link[v]; ok {
-			st.field[a] &= ns
-			// other loads linked to the same field hold the same value
+			group := map[*ssa.Alloc]bool{a: true}
+			for changed := true; changed; {
+				changed = false
+				for x, y := range st.same {
+					if group[x] != group[y] {
+						group[x], group[y] = true, true
+						changed = true
+					}
+				}
+			}
+			for g := range group {
+				st.field[g] &= ns
+			}
+			// other loads linked to the same field (of the record or of an unmodified copy of it) hold the same value
 			for ov, oa := range st.link {
-				if oa == a && ov != v {
+				if group[oa] && ov != v {
 					st.val[ov] &= ns
 				}
 			}
